@@ -191,6 +191,13 @@ pub fn execute(job: &Job) -> Outcome {
 
 pub fn worker_main() -> ! {
     std::panic::set_hook(Box::new(|_| {}));
+    // a runaway loop that allocates must not take the machine down: cap the address space of the worker
+    // (normal jobs need a few tens of MB); exceeding it aborts the worker, which the supervisor reports as Died
+    let gb: u64 = std::env::var("VERIF_WORKER_MEM_GB").ok().and_then(|s| s.parse().ok()).unwrap_or(4);
+    unsafe {
+        let lim = libc::rlimit { rlim_cur: gb << 30, rlim_max: gb << 30 };
+        libc::setrlimit(libc::RLIMIT_AS, &lim);
+    }
     let stdin = std::io::stdin();
     let stdout = std::io::stdout();
     let mut inp = stdin.lock();
